@@ -783,6 +783,18 @@ class FnAnalysis:
             self.sink(kws["out"].o, e, "ufunc/reduction with out= on an array that may share memory")
         if fn_text in INPLACE_FUNCS and args and args[0].o:
             self.sink(args[0].o, e, "%s writes its first argument in place" % fn_text)
+        # np.ma.masked_where / masked_invalid / masked_equal ... (copy=False): the result shares data AND the argument's mask is updated in place
+        if fn_text.startswith(("np.ma.masked_", "ma.masked_")) and fn_text.split(".")[-1] not in ("masked_array", "masked_all", "masked_all_like"):
+            a_idx = 1 if fn_text.endswith("masked_where") else 0
+            src = args[a_idx] if len(args) > a_idx else kws.get("a", kws.get("x", FRESH))
+            c = kwexpr.get("copy")
+            if c is None and fn_text.endswith("masked_where") and len(e.args) > 2:
+                c = e.args[2]
+            if c is not None and not (isinstance(c, ast.Constant) and c.value is True):
+                if src.o:
+                    self.sink(src.o, e, "%s(copy=False) updates the mask of its argument in place" % fn_text)
+                return AV(o=src.o, arr=True)
+            return FRESH_ARR
         # numpy view-preserving constructors
         if fn_text in VIEW_FUNCS or fn_text == "np.array":
             copy_default = COPY_IF_KW.get(fn_text, False)
